@@ -205,6 +205,30 @@ theorem cache_coherent (E : Env) (a : Aux) (op : Op) (h : Inv E a) : Inv E (step
 example : Inv ⟨0, 1⟩ (step ⟨0, 1⟩ Aux.init (.defmethod .primary [0] ⟨1, .stop⟩)).1 :=
   cache_coherent _ _ _ (cache_coherent_init _)
 
+/-- **Eviction is safe.** Dropping any cache entry at any time (a bounded cache, a selective
+    invalidation that drops more than it must, the conditional `if 0 < len(aux.cache)` reset)
+    keeps the invariant: the proofs below need the cache to hold nothing wrong, never to hold
+    anything. -/
+theorem cache_eviction_safe (E : Env) (a : Aux) (k : Precs) (h : Inv E a) :
+    Inv E { a with cache := erase a.cache k } := by
+  refine ⟨h.noEmpty, ?_, h.dflt⟩
+  intro k' e hk
+  simp only [lookup_erase] at hk
+  by_cases hkk : k' = k
+  · simp [hkk] at hk
+  · simp [hkk] at hk
+    exact h.cache k' e hk
+
+/-- … and so is dropping the whole cache without a table change. -/
+theorem cache_flush_safe (E : Env) (a : Aux) (h : Inv E a) : Inv E { a with cache := [] } :=
+  ⟨h.noEmpty, by intro k e hk; simp [lookup] at hk, h.dflt⟩
+
+/-- A call after an eviction still equals the specification (instance of `call_eq_spec` below is
+    `call_after_eviction_eq_spec`). -/
+example : Inv ⟨0, 1⟩ { (step ⟨0, 1⟩ (step ⟨0, 1⟩ Aux.init (.defmethod .before [0] ⟨1, .stop⟩)).1 (.call [[2, 0]])).1
+    with cache := erase (step ⟨0, 1⟩ (step ⟨0, 1⟩ Aux.init (.defmethod .before [0] ⟨1, .stop⟩)).1 (.call [[2, 0]])).1.cache [[2, 0]] } :=
+  cache_eviction_safe _ _ _ (cache_coherent _ _ _ (cache_coherent _ _ _ (cache_coherent_init _)))
+
 /-- the abstract table follows the history: `defmethod` sets and `remove-method` clears exactly
     the addressed (specializer tuple, qualifier) slot; a call changes nothing -/
 theorem table_step (E : Env) (a : Aux) (op : Op) :
@@ -327,6 +351,11 @@ theorem call_eq_spec (E : Env) (a : Aux) (h : Inv E a) (precs : Precs) (hg : Goo
       · simp only [he, if_true] at this ⊢; exact this
       · simp only [he] at this ⊢; exact this
 
+/-- a call made after any cache entry was evicted equals the specification as well -/
+theorem call_after_eviction_eq_spec (E : Env) (a : Aux) (h : Inv E a) (k precs : Precs) (hg : GoodArgs E precs) :
+    (step E { a with cache := erase a.cache k } (.call precs)).2 = spec (absT a.methods) precs :=
+  call_eq_spec E _ (cache_eviction_safe E a k h) precs hg
+
 /-- **compute-applicable-methods equals the specification**: the second copy of the nested walk
     (`Aux.compMeths` with its accumulator, `Aux.compMethList`) lists the methods the property names,
     in the order they run: every applicable :around and :before most specific first, the most
@@ -413,6 +442,14 @@ theorem class_redefinition_coherent (E : Env) (ops mid : List Op) (c : Cls) (old
   rfl
 
 example : GoodArgs ⟨0, 1⟩ [3 :: [0]] ∧ GoodArgs ⟨0, 1⟩ [3 :: [2, 0]] := by simp [GoodArgs]
+
+/-- test: class 3 first has the precedence list (3 t), is called (the entry is cached), then is
+    redefined below class 2: the next call with a new instance runs the method on 2, a call with an
+    instance made before the redefinition still runs the one on t -/
+example : (runOps ⟨0, 1⟩ Aux.init
+      [.defmethod .primary [0] ⟨1, .stop⟩, .defmethod .primary [2] ⟨2, .stop⟩, .defmethod .before [0] ⟨3, .stop⟩,
+       .call [[3, 0]], .call [[3, 2, 0]], .call [[3, 0]]]).2.map (·.res)
+    = [.noCall, .noCall, .noCall, .val (some 1), .val (some 2), .val (some 1)] := by decide
 
 /-- A defmethod or remove-method issued after any history (with earlier calls in it) takes effect
     on the very next call: that call sees the table with exactly that one slot changed. -/
